@@ -442,6 +442,15 @@ func runC15Fuzz(c *eng.Ctx, cr *caseRunner) {
 			_ = coll.AddModules(godi.NewModule("", nil, godi.NewModule("x"), nil))
 			_ = coll.AddModules(godi.AddSingleton(nil), godi.AddScoped(nil, nil), godi.AddTransient(0))
 		}},
+		call{"module options applied to a nil Collection", func(_ godi.Collection, _ godi.Provider, _ godi.Scope) {
+			// a ModuleOption is an exported func(Collection) error: calling it is an API call
+			_ = godi.AddSingleton(pool.Ctors[0].Fn)(nil)
+			_ = godi.AddScoped(pool.Ctors[0].Fn)(nil)
+			_ = godi.AddTransient(pool.Ctors[0].Fn, godi.Name("k"))(nil)
+			_ = godi.Remove[*pool.K0]()(nil)
+			_ = godi.RemoveKeyed[*pool.K0]("k")(nil)
+			_ = godi.NewModule("m", godi.AddSingleton(pool.Ctors[0].Fn), godi.Remove[*pool.K1]())(nil)
+		}},
 		call{"Build variants", func(coll godi.Collection, _ godi.Provider, _ godi.Scope) {
 			ctx, cancel := context.WithCancel(context.Background())
 			cancel()
